@@ -408,7 +408,9 @@ class Parser:
                 if arg:
                     out.append(defs.ActionToken(arg[0].pos))
                     out += arg
-                    out.append(defs.ActionToken(arg[-1].pos))
+                    # NB: space behind the argument's closing brace has to be
+                    #     kept, even if the argument ends with a macro name
+                    out.append(defs.ActionToken(arg[-1].pos, arg_end=True))
                     cur_pos = arg[-1].pos
             else:
                 tok = copy.copy(tok)
